@@ -164,10 +164,10 @@ def _h_spellings(n):
             return Outcome(False, site='literal-rejected', witness=wit)
         results.append(cmd)
         site = 'lit'
-        # quoted: applicable unless v contains CR or LF
+        # quoted: a legal spelling unless v contains CR, LF or NUL (RFC 3501 QUOTED-CHAR)
         has_crlf = False
         for c in v.items:
-            if c == 13 or c == 10:
+            if c == 13 or c == 10 or c == 0:
                 has_crlf = True
                 break
         if not has_crlf:
@@ -253,7 +253,7 @@ def _h_conn_spellings(n, role='user', suffix=b''):
         wit = lambda m: {'v': bytes(v.eval(m)).hex(), 'role': role}  # noqa: E731
         has_crlf = False
         for c in v.items:
-            if c == 13 or c == 10:
+            if c == 13 or c == 10 or c == 0:
                 has_crlf = True
                 break
         is_atom = (not has_crlf) and len(v) > 0 and bool(_g['AString']._pattern.fullmatch(v.as_kind('memoryview')))
@@ -452,7 +452,7 @@ def replay(harness, w):
                     conts.append(memoryview(follow))
         cands = [run(b'a LOGIN {%d+}\r\n' % len(v) + v + tail),
                  run(b'a LOGIN {%d}\r\n' % len(v), v + tail)]
-        if b'\r' not in v and b'\n' not in v:
+        if b'\r' not in v and b'\n' not in v and b'\0' not in v:
             q = b'"' + v.replace(b'\\', b'\\\\').replace(b'"', b'\\"') + b'"'
             cands.append(run(b'a LOGIN ' + q + tail))
             import pymap.parsing.specials as spec
@@ -470,7 +470,7 @@ def replay(harness, w):
         from pymap.backend.dict import Login
         g.update(IMAPConnection=IMAPConnection, connection_exit=connection_exit, Login=Login)
         v = bytes.fromhex(w['v'])
-        has_crlf = b'\r' in v or b'\n' in v
+        has_crlf = b'\r' in v or b'\n' in v or b'\0' in v
         is_atom = (not has_crlf) and bool(v) and bool(spec.AString._pattern.fullmatch(v))
         err = conn_spellings(g, list(v), has_crlf, is_atom, lambda items: bytes(items), w.get('role', 'user'))
         if err:
